@@ -18,7 +18,7 @@ def maxabs(case):
 PRED_SIG = {
     "P01": ("GHHV", 0),
     "P07": ("TTT", 0),
-    "P06": ("GHTT", 0), "P06S": ("T", 0), "P04": ("GHT", 0), "P05": ("GHTV", 0), "J05": ("GHTV", 0), "P09": ("GHTV", 0),
+    "P06": ("GHTT", 0), "P06S": ("T", 0), "P04": ("GHT", 0), "P05": ("GHTV", 0), "J05": ("GHTV", 0), "P09": ("GHTV", 0), "P02": ("T", 0), "P03": ("GT", 0),
 }
 for k, v in PRED_SIG.items(): corr.OPSIG[k] = v
 
@@ -173,6 +173,33 @@ def rot_angles(c):
     if th2 is not None: out["ang_t"] = math.sqrt(float(th2))
     return out
 
+def neg_rot(gd, X):
+    """the other coefficient vector of the same transformation: quaternion part negated (None when the group has no quaternion)"""
+    out = []; i = 0; has = False
+    for kind, n in gd.eparts:
+        part = X[i:i + n]; i += n
+        if kind == "rot4": out += [-x for x in part]; has = True
+        else: out += part
+    return out if has else None
+
+def gen_p03(g, gn):
+    c = gen_below_pi("P03")(g, gn); gd = corr.group(gn)
+    # elements reachable only through composition: both hemispheres, angles near 0 / pi / 2pi
+    c["args"][0] = corr.gen_elem(g, gd, True, nopi=True)   # (a half turn exactly has two principal logarithms: outside the claim)
+    xn = neg_rot(gd, c["args"][0])
+    if xn is not None: c["args"] = c["args"][:2] + [xn]
+    return c
+
+def p03_post(c, outs, sc):
+    """rotation angle of log(X) is at most pi"""
+    import math
+    gd = corr.group(c["group"]); l = outs[6]; i = 0; th2 = 0
+    for kind, n in gd.tparts:
+        part = l[i:i + n]; i += n
+        if kind != "lin": th2 += sum(float(x) ** 2 for x in part)
+    lim = math.pi * (1 + 1e-9) if sc != "q" else math.pi * (1 + 1e-6)
+    return [] if math.sqrt(th2) <= lim else [(8, "rotation angle of log(X) = %.17g > pi" % math.sqrt(th2))]
+
 def gen_moderate_tangent(op):
     """tangent whose components are all moderate (|.| <= 3): power series in ad_t converge quickly"""
     def f(g, gn):
@@ -227,6 +254,31 @@ PROPS["C09"] = dict(
                  "function-local statics: their values are compared with a fresh evaluation (Identity vs setIdentity) in the correspondence; their thread-safety belongs to C14"],
 )
 PROPS["C05"]["preds"].append(P09)
+
+PROPS["C02"] = dict(
+    vfiles=["Properties_C02.v"], level="proof",
+    groups=BASE_GROUPS,
+    corr_ops=["Exp", "Hat", "Generator"],
+    preds=[dict(op="P02", pairs=["exp(t) = matrix exponential of hat(t)", "hat(t)=sum t_i*Generator(i)", "exp(t) finite"], scalars=("h",),
+                htol=1e-9, dscale=lambda c: (1 + maxabs(c)) ** 2, gen=gen_sweep("P02", linmax=6),
+                # accuracy in double: exp(t) computed in double against the 100-digit series of hat(t)
+                xscalars=("d", "h"), xref="rhs", xtol=1e-12)],
+    n=dict(quick=(30, 60), thorough=(400, 1500)),
+    assumptions=["model = hand-written Gallina mirror of every <Group>Tangent::exp (Taylor branches, thresholds, SGal3 fillE) and hat; tied to /repo by exact comparison over the rational scalar on both sides of every threshold",
+                 "proved over the reals: the theorems listed in Properties_C02.v (exp is the entrywise limit of the exponential series of hat); for the groups not listed there the statement is tested on every run: exp(t).transform() against an independent scaling-and-squaring series of hat(t), both in 100-digit arithmetic (formula error) and in double (accuracy, tolerance 1e-12 relative to 1+|t|)"],
+)
+
+PROPS["C03"] = dict(
+    vfiles=["Properties_C03.v"], level="proof",
+    groups=BASE_GROUPS,
+    corr_ops=["Log", "Exp"],
+    preds=[dict(op="P03", pairs=["exp(log X)=X", "log(exp t)=t", "log X finite", "log(exp(log X))=log X", "log(-q)=log(q)", "T(-q)=T(q)"], scalars=("h", "d"),
+                htol=1e-9, dtol=1e-9, dscale=lambda c: (1 + maxabs(c)) ** 2, gen=gen_p03, post=p03_post,
+                pre=lambda c: (tangent_stats(c)[0] or 0) <= 9)],
+    n=dict(quick=(30, 60), thorough=(400, 1500)),
+    assumptions=["model = hand-written Gallina mirror of every <Group>::log (quaternion hemisphere handling, small-angle branches, V^-1 recovery) and exp; tied to /repo by exact comparison over the rational scalar",
+                 "proved over the reals: the theorems listed in Properties_C03.v; the remaining groups are tested on every run in 100-digit arithmetic and in double (tolerance 1e-9)"],
+)
 
 PROPS["C06"] = dict(
     vfiles=["Properties_C06.v"], level="proof",
@@ -333,10 +385,12 @@ def eval_preds(P, pcases, log, scalars=("q", "d")):
                 s0 = pd["dscale"](c) if pd.get("dscale") else None
                 bad = vcheck.pair_failures(outs, False, tol={"d": pd.get("dtol"), "f": pd.get("ftol", 1e-3), "h": pd.get("htol", 1e-9)}[sc],
                                            scale_fn=(lambda k, a, b, s, s0=s0: max(s, s0)) if s0 is not None else None)
+            if pd.get("post"): bad = bad + pd["post"](c, outs, sc)
             th2, lin = tangent_stats(c) if bad else (None, None)
             ra_ = rot_angles(c) if bad else {}
             for k, why in bad:
-                nm = pd["pairs"][k] if k < len(pd["pairs"]) else "pair%d" % k
+                nm = pd["pairs"][k] if k < len(pd["pairs"]) else pd.get("post_names", {}).get(k, "rotation angle of log(X) <= pi")
+                if 2 * k + 1 >= len(outs): outs = outs + [[], []] * (k + 1)
                 viol.append(("pred", dict(group=c["group"], pred=c["op"], scalar=sc, pair=nm, _args=c["args"], theta2=th2, lin=lin, **ra_),
                              "%s: %s fails over %s: %s" % (c["group"], nm, {"q": "exact rationals", "d": "double", "f": "float", "h": "100-digit arithmetic"}[sc], why),
                              dict(kind="predicate", scalar=sc, pair=nm, case=corr.case_json(c),
@@ -364,7 +418,7 @@ def eval_preds(P, pcases, log, scalars=("q", "d")):
             s0 = pd["dscale"](c) if pd.get("dscale") else None
             th2, lin = tangent_stats(c); ra_ = None
             for k in range(len(oa) // 2):
-                b_ = vcheck.pair_failures([oa[2 * k], ob[2 * k]], False, tol=pd["xtol"], scale_fn=(lambda k_, a, b, s, s0=s0: max(s, s0)) if s0 is not None else None)
+                b_ = vcheck.pair_failures([oa[2 * k], ob[2 * k + (1 if pd.get("xref") == "rhs" else 0)]], False, tol=pd["xtol"], scale_fn=(lambda k_, a, b, s, s0=s0: max(s, s0)) if s0 is not None else None)
                 for _, why in b_:
                     nm = pd["pairs"][k] if k < len(pd["pairs"]) else "pair%d" % k
                     if ra_ is None: ra_ = rot_angles(c)
